@@ -813,7 +813,7 @@ def c03_11(ctx: Ctx):
               f"are_joinable can return true although block1 has other outgoing edges and `{ft}` is false", key="C03.11::refuses")
 
 
-@rule("C03.12", ["C03", "C11"], "several calls to one callee in one patch each get their return edge", 1)
+@rule("C03.12", ["C03", "C11", "C07"], "several calls to one callee in one patch each get their return edge", 1)
 def c03_12(ctx: Ctx):
     fi = ctx.repo.func("_modify.edges.add_return_edges_to_callee")
     lin = linear(fi.node)
